@@ -414,6 +414,231 @@ def job_getitem_int(chk, tname, dname):
                 chk.obligation(f"{base}/{nm}/path={k}", "pre@callsite", _vc_thunk(pc, cond, 30), function=fn)
 
 
+# --------------------------------------------------------------------------------------------- coordinates
+def job_parent_coords(chk, tname, dname):
+    """parent_start / parent_stop name the parent interval that holds the displayed elements"""
+    funcs, hooks = make_hooks(tname)
+    fn = f"{tname}.parent_start/parent_stop"
+    v, pre = sym_view(tname)
+    pre = pre + DIRECTIONS[dname](v)
+    eng = Engine(funcs, hooks)
+    paths = eng.run(lambda e: (e.hooks.get_attr(e, v, "parent_start"), e.hooks.get_attr(e, v, "parent_stop")), pre)
+    base = f"{fn}/cfg=({dname})"
+    chk.obligation(f"{base}/cover", "cover", cover_thunk(pre), function=fn)
+    s0, e0, st0, off0, L0 = view_tuple(v)
+    for k, p in enumerate(paths):
+        if p.outcome == "abort":
+            continue
+        if p.outcome != "return":
+            goal = z3.BoolVal(False)   # the internal asserts must never fire on an inv view
+        else:
+            ps, pe = p.value
+
+            def build():
+                n = S.view_len(s0, e0, st0)
+                f0 = S.first(s0, st0, L0)
+                lo, hi = ps - off0, pe - off0
+                last = f0 + (n - 1) * st0
+                return And(0 <= lo, lo <= hi, hi <= L0,
+                           Implies(n > 0, And(lo <= f0, f0 < hi, lo <= last, last < hi,
+                                              ite(st0 > 0, lo == f0, hi - 1 == f0),
+                                              Implies(Or(st0 == 1, st0 == -1), hi - lo == n))))
+            goal = goal_with_defs(build)
+        chk.obligation(f"{base}/post/path={k}", "post", _vc_thunk(p.pc, goal, 60), function=fn,
+                       replayer=_replay_coords(tname), key=f"C01/{fn}/post")
+    _note_inline(chk, eng)
+
+
+def _replay_coords(tname):
+    def rep(model):
+        L, s, e, st, off = (model.get(k, d) for k, d in (("vL", 0), ("vstart", 0), ("vstop", 0), ("vstep", 1), ("voff", 0)))
+        if not S.inv(s, e, st, L) or off < 0:
+            return {"failed": False, "description": f"model does not satisfy inv: {model}"}
+        v, parent = native_view(tname, L, s, e, st, off)
+        try:
+            lo, hi = v.parent_start - off, v.parent_stop - off
+        except AssertionError as ex:
+            return {"failed": True, "description": f"{tname}({parent!r},{s},{e},{st}).parent_start/stop: internal assert fired"}
+        idx = list(range(L))[s:e:st] if st > 0 else [L + i for i in range(s, e, st)]
+        ok = 0 <= lo <= hi <= L and all(lo <= i < hi for i in idx) and (not idx or (idx[0] == (lo if st > 0 else hi - 1)))
+        ok = ok and (abs(st) != 1 or not idx or hi - lo == len(idx))
+        return {"failed": not ok, "witness": {"view": [L, s, e, st, off]},
+                "description": f"{tname}(parent={parent!r},{s},{e},{st},offset={off}): parent interval [{lo},{hi}) vs displayed indices {idx}"}
+    return rep
+
+
+def job_abs_rel(chk, tname, dname, boundary):
+    """absolute_position(i, include_boundary) and the round trip through relative_position"""
+    if dname == "empty":
+        return
+    funcs, hooks = make_hooks(tname)
+    fn = f"{tname}.absolute_position"
+    v, pre = sym_view(tname)
+    i = z3.Int("i")
+    pre = pre + DIRECTIONS[dname](v)
+    s0, e0, st0, off0, L0 = view_tuple(v)
+    base = f"{fn}/cfg=({dname},include_boundary={boundary})"
+    eng = Engine(funcs, hooks)
+    paths = eng.run(lambda e: e.hooks.call_method(e, v, "absolute_position", [i], {"include_boundary": boundary}, None), pre)
+    chk.obligation(f"{base}/cover", "cover", cover_thunk(pre), function=fn)
+    for k, p in enumerate(paths):
+        if p.outcome == "abort":
+            continue
+
+        def build():
+            n = S.view_len(s0, e0, st0)
+            top = n + 1 if boundary else n
+            inside = And(0 <= i, i < top)
+            if p.outcome == "raise":
+                return And(p.value == "IndexError", Not(inside))
+            idx = S.first(s0, st0, L0) + i * st0
+            return And(inside, p.value == off0 + idx + ite(st0 < 0, 1, 0))
+        chk.obligation(f"{base}/post/path={k}", "post", _vc_thunk(p.pc, goal_with_defs(build), 60), function=fn,
+                       replayer=_replay_abs(tname, boundary), key=f"C01/{fn}/post")
+    _note_inline(chk, eng)
+    if boundary:
+        return
+    # round trip: relative_position(absolute_position(i)) == i for 0 <= i < n
+    fn2 = f"{tname}.relative_position"
+    base2 = f"{fn2}/roundtrip/cfg=({dname})"
+    eng = Engine(funcs, hooks)
+
+    def entry(e):
+        a = e.hooks.call_method(e, v, "absolute_position", [i], {}, None)
+        return e.hooks.call_method(e, v, "relative_position", [a], {}, None)
+    Defs.push()
+    n = S.view_len(s0, e0, st0)
+    defs, nz = Defs.pop()
+    pre2 = pre + list(defs) + [0 <= i, i < n]
+    paths = eng.run(entry, pre2)
+    chk.obligation(f"{base2}/cover", "cover", cover_thunk(pre2), function=fn2)
+    for k, p in enumerate(paths):
+        if p.outcome == "abort":
+            continue
+        goal = (p.value == i) if p.outcome == "return" else z3.BoolVal(False)
+        chk.obligation(f"{base2}/post/path={k}", "lemma", _vc_thunk(p.pc, goal, 60), function=fn2,
+                       replayer=_replay_abs(tname, False), key=f"C01/{fn2}/roundtrip")
+    _note_inline(chk, eng)
+
+
+def job_rel_spec(chk, tname, dname, stop):
+    """relative_position(p, stop): boundary semantics derived from the call sites in get_features --
+    the number of displayed elements strictly before plus-strand boundary p in reading direction, rounded up
+    (start of a feature) or down (stop=True); negative = precedes the view"""
+    if dname == "empty":
+        return
+    from pyvc.dsl import fdiv
+    funcs, hooks = make_hooks(tname)
+    fn = f"{tname}.relative_position"
+    v, pre = sym_view(tname)
+    pp = z3.Int("p")
+    pre = pre + DIRECTIONS[dname](v) + [pp >= 0]
+    s0, e0, st0, off0, L0 = view_tuple(v)
+    eng = Engine(funcs, hooks)
+    paths = eng.run(lambda e: e.hooks.call_method(e, v, "relative_position", [pp], {"stop": stop}, None), pre)
+    base = f"{fn}/spec/cfg=({dname},stop={stop})"
+    chk.obligation(f"{base}/cover", "cover", cover_thunk(pre), function=fn)
+    for k, p in enumerate(paths):
+        if p.outcome == "abort":
+            continue
+
+        def build():
+            if p.outcome != "return":
+                return False
+            t = ite(st0 > 0, pp - off0 - s0, L0 - pp + off0 + s0 + 1)
+            a = ite(st0 > 0, st0, -st0)
+            want = fdiv(t, a) if stop else -fdiv(-t, a)
+            return p.value == want
+        chk.obligation(f"{base}/post/path={k}", "post", _vc_thunk(p.pc, goal_with_defs(build), 60), function=fn,
+                       replayer=_replay_rel(tname, stop), key=f"C01/{fn}/spec")
+    _note_inline(chk, eng)
+
+
+def _replay_rel(tname, stop):
+    def rep(model):
+        L, s, e, st, off = (model.get(k, d) for k, d in (("vL", 0), ("vstart", 0), ("vstop", 0), ("vstep", 1), ("voff", 0)))
+        pp = model.get("p", 0)
+        if not S.inv(s, e, st, L) or off < 0 or pp < 0:
+            return {"failed": False, "description": f"model outside precondition: {model}"}
+        v, parent = native_view(tname, L, s, e, st, off)
+        got = v.relative_position(pp, stop=stop)
+        t = pp - off - s if st > 0 else L - pp + off + s + 1
+        want = t // abs(st) if stop else -((-t) // abs(st))
+        return {"failed": got != want, "witness": {"view": [L, s, e, st, off], "p": pp, "stop": stop},
+                "description": f"{tname}(parent={parent!r},{s},{e},{st},offset={off}).relative_position({pp}, stop={stop}) = {got}, boundary semantics give {want}"}
+    return rep
+
+
+def _replay_abs(tname, boundary):
+    def rep(model):
+        L, s, e, st, off = (model.get(k, d) for k, d in (("vL", 0), ("vstart", 0), ("vstop", 0), ("vstep", 1), ("voff", 0)))
+        i = model.get("i", 0)
+        if not S.inv(s, e, st, L) or off < 0:
+            return {"failed": False, "description": f"model does not satisfy inv: {model}"}
+        v, parent = native_view(tname, L, s, e, st, off)
+        n = len(v)
+        top = n + 1 if boundary else n
+        try:
+            a = v.absolute_position(i, include_boundary=boundary)
+            idx = (s if st > 0 else L + s) + i * st
+            ok = 0 <= i < top and a == off + idx + (1 if st < 0 else 0)
+            obs = f"absolute_position({i}) = {a}"
+            if ok and not boundary and n > 0:
+                r = v.relative_position(a)
+                ok = r == i
+                obs += f", relative_position({a}) = {r}"
+        except IndexError:
+            ok, obs = not (0 <= i < top), "IndexError"
+        return {"failed": not ok, "witness": {"view": [L, s, e, st, off], "i": i},
+                "description": f"{tname}(parent={parent!r},{s},{e},{st},offset={off}): {obs}"}
+    return rep
+
+
+# --------------------------------------------------------------------------------------------- displayed string
+class StrHooks(ViewHooks):
+    """parent[lo:hi:step] on the opaque parent string returns a ("strslice", a, b, c) descriptor"""
+
+    def subscript(self, eng, obj, idx):
+        if isinstance(obj, Opaque) and obj.tag == "seq" and isinstance(idx, SliceV):
+            return ("strslice", obj, idx.start, idx.stop, idx.step)
+        return super().subscript(eng, obj, idx)
+
+
+def job_value(chk, tname, dname):
+    """the string a view displays is parent[first + k*step], k < n  (lemma linking the integer abstraction to
+    the characters; python slice semantics = speclib.py_slice_indices)"""
+    if tname == "core.new_alignment.SeqDataView":
+        return
+    funcs, props = load(tname)
+    hooks = StrHooks(funcs, props, modular={"_is_int": mod_is_int, "__len__": mod_len})
+    prop = "value" if "value" in funcs else "str_value"
+    fn = f"{tname}.{prop}"
+    v, pre = sym_view(tname)
+    pre = pre + DIRECTIONS[dname](v)
+    eng = Engine(funcs, hooks)
+    paths = eng.run(lambda e: e.hooks.get_attr(e, v, prop), pre)
+    base = f"{fn}/cfg=({dname})"
+    chk.obligation(f"{base}/cover", "cover", cover_thunk(pre), function=fn)
+    s0, e0, st0, off0, L0 = view_tuple(v)
+    for k, p in enumerate(paths):
+        if p.outcome == "abort":
+            continue
+        val = p.value
+        if p.outcome != "return" or not (isinstance(val, tuple) and val and val[0] == "strslice" and val[1] is v.fields["seq"]):
+            goal = z3.BoolVal(False)
+        else:
+            _, _, a, b, c = val
+
+            def build():
+                cc = 1 if c is None else c
+                aa, bb = S.py_slice_indices(a, b, cc, L0)
+                n = S.view_len(s0, e0, st0)
+                return And(cc == st0, S.len_range(aa, bb, cc) == n, Implies(n > 0, aa == S.first(s0, st0, L0)))
+            goal = goal_with_defs(build)
+        chk.obligation(f"{base}/post/path={k}", "lemma", _vc_thunk(p.pc, goal, 60), function=fn,
+                       replayer=_replay_len(tname), key=f"C01/{fn}/post")
+
+
 def dispatch(chk, jobname, args):
     globals()[jobname](chk, *args)
 
@@ -446,6 +671,13 @@ def run(chk):
                 jobs.append(("job_len", (tname, d)))
             if not only or "int" in only:
                 jobs.append(("job_getitem_int", (tname, d)))
+            if not only or "coords" in only:
+                jobs.append(("job_parent_coords", (tname, d)))
+                jobs.append(("job_abs_rel", (tname, d, False)))
+                jobs.append(("job_abs_rel", (tname, d, True)))
+                jobs.append(("job_value", (tname, d)))
+                jobs.append(("job_rel_spec", (tname, d, False)))
+                jobs.append(("job_rel_spec", (tname, d, True)))
         if not only or "slice" in only:
             for cfg in slice_configs():
                 jobs.append(("job_getitem_slice", (tname, *cfg)))
